@@ -315,4 +315,102 @@ def sliceIndices (v_index_start : Option Int) (v_index_stop : Option Int) (v_ind
                 let v_stop : Int := (min v_upper v_stop)
                 .ok (v_start, v_stop, v_step))))))))
 
+def inferSizeImpl (v_shape : List Int) (v_numel : Int) : Except String (List Int) :=
+  let v_newsize : Int := (1 : Int)
+  let v_infer_dim : Option Int := none
+  match (List.range v_shape.length).foldlM (m := Except String) (fun (st__ : Option Int × Int) (i__ : Nat) =>
+      let v_dim : Int := Int.ofNat i__
+      let (v_infer_dim, v_newsize) := st__
+      if (((v_shape.getD (Int.toNat v_dim) 0) = (- (1 : Int)))) then (
+        match v_infer_dim with
+        | none => (
+          let v_infer_dim : Int := v_dim
+          .ok ((some v_infer_dim), v_newsize))
+        | some v_infer_dim => (
+          .error "AssertionError"))
+      else (
+        if (((v_shape.getD (Int.toNat v_dim) 0) ≥ (0 : Int))) then (
+          let v_newsize : Int := (v_newsize * (v_shape.getD (Int.toNat v_dim) 0))
+          .ok (v_infer_dim, v_newsize))
+        else (
+          .error "AssertionError")))
+      (v_infer_dim, v_newsize) with
+  | .error e__ => .error e__
+  | .ok (v_infer_dim, v_newsize) => (
+    if (¬ (((v_numel = v_newsize)) ∨ ((v_infer_dim.isSome = true) ∧ ((v_newsize > (0 : Int))) ∧ (((Int.fmod v_numel v_newsize) = (0 : Int)))))) then (
+      .error "AssertionError")
+    else (
+      let v_out : List Int := v_shape
+      match v_infer_dim with
+      | none => (
+        .ok v_out)
+      | some v_infer_dim => (
+        if ((v_newsize = 0)) then .error "ZeroDivisionError" else (
+          let v_out : List Int := v_out.set (Int.toNat v_infer_dim) (Int.fdiv v_numel v_newsize)
+          .ok v_out))))
+
+def inferSizeImplLocal (v_shape : List Int) (v_numel : Int) : Except String (List Int) :=
+  let v_newsize : Int := (1 : Int)
+  let v_infer_dim : Option Int := none
+  match (List.range v_shape.length).foldlM (m := Except String) (fun (st__ : Option Int × Int) (i__ : Nat) =>
+      let v_dim : Int := Int.ofNat i__
+      let (v_infer_dim, v_newsize) := st__
+      if (((v_shape.getD (Int.toNat v_dim) 0) = (- (1 : Int)))) then (
+        match v_infer_dim with
+        | none => (
+          let v_infer_dim : Int := v_dim
+          .ok ((some v_infer_dim), v_newsize))
+        | some v_infer_dim => (
+          .error "AssertionError"))
+      else (
+        if (((v_shape.getD (Int.toNat v_dim) 0) ≥ (0 : Int))) then (
+          let v_newsize : Int := (v_newsize * (v_shape.getD (Int.toNat v_dim) 0))
+          .ok (v_infer_dim, v_newsize))
+        else (
+          .error "AssertionError")))
+      (v_infer_dim, v_newsize) with
+  | .error e__ => .error e__
+  | .ok (v_infer_dim, v_newsize) => (
+    if (¬ (((v_numel = v_newsize)) ∨ ((v_infer_dim.isSome = true) ∧ ((v_newsize > (0 : Int))) ∧ (((Int.fmod v_numel v_newsize) = (0 : Int)))))) then (
+      .error "AssertionError")
+    else (
+      let v_out : List Int := v_shape
+      match v_infer_dim with
+      | none => (
+        .ok v_out)
+      | some v_infer_dim => (
+        if ((v_newsize = 0)) then .error "ZeroDivisionError" else (
+          let v_out : List Int := v_out.set (Int.toNat v_infer_dim) (Int.fdiv v_numel v_newsize)
+          .ok v_out))))
+
+def maybeCorrectNegDim (v_dim : Int) (v_shape : List Int) (v_ndim : Option Int) : Except String (Int) :=
+  match v_ndim with
+  | none => (
+    let v_ndim : Int := (Int.ofNat v_shape.length)
+    if ((v_dim < (0 : Int))) then (
+      let v_new_dim : Int := (v_ndim + v_dim)
+      if (((v_new_dim < (0 : Int))) ∨ ((v_new_dim ≥ v_ndim))) then (
+        .error "IndexError")
+      else (
+        .ok (v_new_dim)))
+    else (
+      let v_new_dim : Int := v_dim
+      if (((v_new_dim < (0 : Int))) ∨ ((v_new_dim ≥ v_ndim))) then (
+        .error "IndexError")
+      else (
+        .ok (v_new_dim))))
+  | some v_ndim => (
+    if ((v_dim < (0 : Int))) then (
+      let v_new_dim : Int := (v_ndim + v_dim)
+      if (((v_new_dim < (0 : Int))) ∨ ((v_new_dim ≥ v_ndim))) then (
+        .error "IndexError")
+      else (
+        .ok (v_new_dim)))
+    else (
+      let v_new_dim : Int := v_dim
+      if (((v_new_dim < (0 : Int))) ∨ ((v_new_dim ≥ v_ndim))) then (
+        .error "IndexError")
+      else (
+        .ok (v_new_dim))))
+
 end TdVerif.Gen
